@@ -24,6 +24,7 @@ type Case struct {
 	Procs   int   `json:"procs"`
 	Stagger []int `json:"stagger"` // per early caller: Gosched calls before calling Do
 	Hold    int   `json:"hold"`    // Gosched rounds the harness keeps the gate closed after everybody called Do
+	Panics  bool  `json:"panics,omitempty"` // every passed function panics (after the gate opened); callers recover
 }
 
 type vals struct {
@@ -71,8 +72,15 @@ func Run(c Case) pbt.Outcome {
 	got := make([]vals, n)
 	sawCompleted := make([]bool, n)
 	var wg sync.WaitGroup
+	panicked := make([]bool, n)
 	call := func(i int, hold bool) {
 		defer wg.Done()
+		defer func() {
+			if p := recover(); p != nil {
+				panicked[i] = true
+				returned.Add(1)
+			}
+		}()
 		calling.Add(1)
 		got[i] = o.do(i, func() {
 			invoked[i].Add(1)
@@ -81,6 +89,9 @@ func Run(c Case) pbt.Outcome {
 				<-gate
 			}
 			completed = true
+			if c.Panics {
+				panic("action panics")
+			}
 		})
 		sawCompleted[i] = completed
 		returned.Add(1)
@@ -142,6 +153,15 @@ func Run(c Case) pbt.Outcome {
 	if total != 1 {
 		return pbt.Fail("%d function invocations in total (per caller: %v), want exactly 1", total, counts(invoked))
 	}
+	if c.Panics {
+		// a panicking action still counts as the one invocation; nothing is asserted about the returned values
+		for i := 0; i < n; i++ {
+			if panicked[i] && invoked[i].Load() == 0 {
+				return pbt.Fail("caller %d's Do panicked although its function was never invoked", i)
+			}
+		}
+		return pbt.Outcome{Evals: n, NonTrivial: c.NBefore >= 2, Labels: []string{"panicking-action", fmt.Sprintf("variant=Once%d", c.Variant)}}
+	}
 	want := valsOf(first)
 	for i := 0; i < n; i++ {
 		if got[i] != want {
@@ -176,7 +196,7 @@ func counts(a []atomic.Int32) []int32 {
 var spec = pbt.Register(&pbt.Spec[Case]{
 	Property: "C17", Name: "C17.once",
 	Rule: "E4 under -race: variant in {Once1,Once2,Once3} x 1..8 early callers (each with its own function returning values unique to it, counting its invocations, signalling 'entered', " +
-		"then blocking on a harness gate, finally writing a PLAIN completion flag) x 0..4 later callers x GOMAXPROCS x arrival stagger. Oracle: exactly one 'entered' ever; while the gate is closed no Do has returned " +
+		"then blocking on a harness gate, finally writing a PLAIN completion flag) x 0..4 later callers x GOMAXPROCS x arrival stagger; in one case of six every passed function panics after the gate opens (callers recover; then only 'exactly one invocation in total' is asserted). Oracle: exactly one 'entered' ever; while the gate is closed no Do has returned " +
 		"(sound: the action has not completed); afterwards every Do returned exactly the invoked function's values; total invocations == 1; every caller reads the plain flag after Do (must be true; the race detector " +
 		"reports any read not ordered after the write). non-trivial = >=2 early callers",
 	Gen: func(t *rapid.T) Case {
@@ -186,6 +206,7 @@ var spec = pbt.Register(&pbt.Spec[Case]{
 			Procs:   rapid.SampledFrom([]int{1, 2, 4, 8, 16}).Draw(t, "procs"),
 			Stagger: rapid.SliceOfN(rapid.IntRange(0, 4), nb, nb).Draw(t, "stagger"),
 			Hold:    rapid.SampledFrom([]int{0, 1, 3, 10}).Draw(t, "hold"),
+			Panics:  rapid.IntRange(0, 5).Draw(t, "panics") == 0,
 		}
 	},
 	Run: Run, Quick: 1500, Thorough: 20000, Crashy: true, Retries: 100,
